@@ -12,6 +12,7 @@ import (
 	crand "crypto/rand"
 	"fmt"
 	"math/big"
+	"sync"
 	"time"
 
 	"verifsim/kit"
@@ -67,10 +68,11 @@ func init() {
 }
 
 type imp struct {
-	name string
-	disk *simdisk.Disk
-	im   *chainkit.Importer
-	gen  int
+	name  string
+	stuck bool // rejected the builder's chain for a reason outside this property: no longer fed
+	disk  *simdisk.Disk
+	im    *chainkit.Importer
+	gen   int
 }
 
 type sim struct {
@@ -96,23 +98,64 @@ type sim struct {
 	varList  []*variant
 	withheld []*entry
 
-	invalidBlocks map[common.Hash]string
-	facts         map[common.Hash]*blockFacts
-	mining        bool
+	takeWorkerRefusals func() []workerRefusal
+
+	droppedByReorg map[common.Hash]bool
+	invalidBlocks  map[common.Hash]string
+	facts          map[common.Hash]*blockFacts
+	mining         bool
 }
 
 type critExit struct{}
 
+type workerRefusal struct {
+	hash common.Hash
+	err  error
+}
+
 func runC17(r *kit.Run) {
 	oldRand := crand.Reader
 	crand.Reader = kit.NewStream(r.Seed, r.Index)
+	var refMu sync.Mutex
+	var workerRefusals []workerRefusal
+	// the worker reports a refused transaction only in its log (miner/worker.go:417)
+	logging.Root().SetHandler(logging.FuncHandler(func(rec *logging.Record) error {
+		if rec.Msg != "commitTransaction: apply transition failed" {
+			return nil
+		}
+		var wr workerRefusal
+		for i := 0; i+1 < len(rec.Ctx); i += 2 {
+			switch rec.Ctx[i] {
+			case "err":
+				if e, ok := rec.Ctx[i+1].(error); ok {
+					wr.err = e
+				}
+			case "tx":
+				if h, ok := rec.Ctx[i+1].(string); ok {
+					wr.hash = common.HexToHash(h)
+				}
+			}
+		}
+		refMu.Lock()
+		workerRefusals = append(workerRefusals, wr)
+		refMu.Unlock()
+		return nil
+	}))
 	defer func() {
 		crand.Reader = oldRand
 		logging.SimCrit = nil
+		logging.Root().SetHandler(logging.DiscardHandler())
 	}()
 	err := kit.Bubble(func() {
 		s := &sim{r: r, c: r.C, acctByAddr: map[common.Address]*acct{}, reg: map[common.Hash]*entry{}, byNonce: map[nonceKey][]*entry{},
-			variants: map[common.Hash]*variant{}, invalidBlocks: map[common.Hash]string{}, facts: map[common.Hash]*blockFacts{}}
+			variants: map[common.Hash]*variant{}, droppedByReorg: map[common.Hash]bool{}, invalidBlocks: map[common.Hash]string{}, facts: map[common.Hash]*blockFacts{}}
+		s.takeWorkerRefusals = func() []workerRefusal {
+			refMu.Lock()
+			defer refMu.Unlock()
+			out := workerRefusals
+			workerRefusals = nil
+			return out
+		}
 		logging.SimCrit = func(msg string, ctx []interface{}) {
 			r.Report("logging-crit", "the code under test called logging.Crit (process exit): %s %v", msg, ctx)
 			panic(critExit{})
@@ -215,6 +258,9 @@ func (s *sim) run() {
 		}
 		// 4. importers: lag, batches, restarts
 		for _, im := range s.ims {
+			if im.stuck {
+				continue
+			}
 			if c.Chance("importer-lags", 1, 5) {
 				r.Fault("importer-lag")
 				continue
@@ -232,13 +278,20 @@ func (s *sim) run() {
 	}
 	// final: everybody catches up, last judgement
 	for _, im := range s.ims {
-		s.syncTo(im, s.B.Chain.CurrentBlock().NumberU64())
+		if !im.stuck {
+			s.syncTo(im, s.B.Chain.CurrentBlock().NumberU64())
+		}
 	}
 	s.checkAll()
 	applied := 0
 	head := s.B.Chain.CurrentBlock().NumberU64()
 	for n := uint64(1); n <= head; n++ {
 		applied += len(s.B.Chain.GetBlockByNumber(n).Transactions())
+	}
+	for _, e := range s.regList {
+		if s.droppedByReorg[e.hash] && s.appliedOn(s.B.Chain, e.hash) {
+			r.Probe("reapplied-after-reorg-drop")
+		}
 	}
 	r.Logf("end: head=%d applied=%d registered=%d fabricated=%d", head, applied, len(s.regList), len(s.varList))
 	r.Count("registered-txs", int64(len(s.regList)))
@@ -381,6 +434,8 @@ func (s *sim) txFault() {
 		r.Fault("resubmit")
 		if s.appliedOn(s.B.Chain, e.hash) {
 			r.Fault("resubmit-after-inclusion")
+		} else if s.droppedByReorg[e.hash] {
+			r.Fault("resubmit-after-reorg-drop")
 		}
 		n := 1 + c.Intn("resubmit-times", 3)
 		for i := 0; i < n; i++ {
@@ -415,6 +470,13 @@ func (s *sim) txFault() {
 // workerBlock: the builder's real worker builds from its pool.
 func (s *sim) workerBlock() {
 	r := s.r
+	// what the pool offers the worker (Pending() is a map: sorted before use)
+	parent := s.B.Chain.CurrentBlock()
+	pend, _ := s.B.Pool.Pending()
+	var offered []*types.Transaction
+	for _, a := range s.accts {
+		offered = append(offered, pend[a.addr]...)
+	}
 	var blk *types.Block
 	var err error
 	if !s.mining {
@@ -428,8 +490,34 @@ func (s *sim) workerBlock() {
 	}
 	r.Logf("worker block %d %s txs=%d gasUsed=%d/%d: %s", blk.NumberU64(), short(blk.Hash()), len(blk.Transactions()), blk.GasUsed(), blk.GasLimit(), s.txNames(blk))
 	r.FP("worker", fmt.Sprint(len(blk.Transactions())))
-	if blk.GasUsed() > 0 && blk.GasLimit()-blk.GasUsed() < 21000 {
-		r.Probe("worker-block-gas-exhausted")
+	for _, wr := range s.takeWorkerRefusals() {
+		cls := "unknown"
+		if wr.err != nil {
+			cls = refusalClass(wr.err)
+		}
+		r.Logf("  worker refused %s: %v", s.label(wr.hash), wr.err)
+		r.Probe("worker-refused." + cls)
+		r.FP("worker-refused", cls)
+		r.Nontrivial()
+	}
+	if blk.ParentHash() != parent.Hash() {
+		return
+	}
+	// transactions the pool offered and the worker left out: refused (or not reached)
+	in := map[common.Hash]bool{}
+	for _, tx := range blk.Transactions() {
+		in[tx.Hash()] = true
+	}
+	left := ""
+	for _, tx := range offered {
+		if !in[tx.Hash()] {
+			left += s.label(tx.Hash()) + " "
+		}
+	}
+	if left != "" {
+		r.Logf("  worker left out pending: %s", left)
+		r.Probe("worker-left-out-pending")
+		r.Nontrivial()
 	}
 }
 
@@ -625,6 +713,10 @@ func (s *sim) forkEvent() bool {
 	if head < d+1 {
 		return false
 	}
+	if s.rival != nil && s.rival.stuck {
+		s.rival.im.Stop(kit.Wait)
+		s.rival = nil
+	}
 	if s.rival == nil {
 		s.rival = s.newImporter("R")
 	}
@@ -688,19 +780,25 @@ func (s *sim) forkEvent() bool {
 	r.Logf("fork delivered to B: err=%v head %d %s -> %d %s", err, oldHead.NumberU64(), short(oldHead.Hash()), nh.NumberU64(), short(nh.Hash()))
 	if nh.Hash() == blocks[len(blocks)-1].Hash() {
 		r.Probe("reorg-on-builder")
-		dropped := 0
-		for n := forkPoint + 1; n <= oldHead.NumberU64(); n++ {
-			// transactions of the abandoned branch
-			ob := s.B.Chain.GetBlock(oldHead.Hash(), oldHead.NumberU64())
-			for ob != nil && ob.NumberU64() > n {
-				ob = s.B.Chain.GetBlock(ob.ParentHash(), ob.NumberU64()-1)
+		// transactions of the abandoned branch that the new branch does not contain
+		onNew := map[common.Hash]bool{}
+		for _, b := range blocks {
+			for _, tx := range b.Transactions() {
+				onNew[tx.Hash()] = true
 			}
-			if ob != nil {
-				dropped += len(ob.Transactions())
+		}
+		dropped := 0
+		for ob := oldHead; ob != nil && ob.NumberU64() > forkPoint; ob = s.B.Chain.GetBlock(ob.ParentHash(), ob.NumberU64()-1) {
+			for _, tx := range ob.Transactions() {
+				if !onNew[tx.Hash()] {
+					s.droppedByReorg[tx.Hash()] = true
+					dropped++
+				}
 			}
 		}
 		if dropped > 0 {
 			r.Probe("reorg-dropped-txs")
+			r.Logf("  reorg dropped %d applied transactions", dropped)
 		}
 		r.FP("reorg", fmt.Sprint(d))
 	} else {
@@ -773,7 +871,15 @@ func (s *sim) syncTo(im *imp, upto uint64) {
 	got := ch.CurrentBlock()
 	r.Logf("  %s: import %d..%d -> err=%v head=%d %s", im.name, base+1, upto, err, got.NumberU64(), short(got.Hash()))
 	if err != nil {
-		r.Report("importer-rejects-builder-chain", "%s rejects blocks %d..%d of the builder's canonical chain: %v", im.name, base+1, upto, err)
+		if cls := refusalClass(err); cls != "other" {
+			// the builder's canonical chain holds a transaction that this node's processor refuses
+			r.Report("importer-refuses-applied-transaction", "%s rejects blocks %d..%d of the builder's canonical chain: %v", im.name, base+1, upto, err)
+		} else {
+			// any other disagreement (roots after end-of-block hooks, fork handling) is not this
+			// property's subject (C06/C11): counted, and the node is left where it is
+			r.Probe("importer-rejects-builder-chain")
+		}
+		im.stuck = true
 		return
 	}
 	if got.Hash() != want {
@@ -781,7 +887,8 @@ func (s *sim) syncTo(im *imp, upto uint64) {
 			r.Probe("importer-keeps-own-branch")
 			return
 		}
-		r.Report("importer-does-not-follow", "%s: after importing %d..%d without error its head is %d %s, the builder's block %d is %s", im.name, base+1, upto, got.NumberU64(), short(got.Hash()), upto, short(want))
+		r.Probe("importer-does-not-follow")
+		im.stuck = true
 	}
 }
 
